@@ -218,7 +218,17 @@ func ruleNatsPlumbing(c *Ctx) {
 	}
 	c.inst(1)
 	hasNoRe, hasClosed, nListener := false, false, 0
+	scan := []*ssa.Function{conn}
 	for _, call := range callsIn(conn) {
+		if sf := call.Common().StaticCallee(); sf != nil && p.isRepoFn(sf) && sf.Pkg == conn.Pkg {
+			scan = append(scan, sf)
+		}
+	}
+	var connCalls []ssa.CallInstruction
+	for _, f := range scan {
+		connCalls = append(connCalls, callsIn(f)...)
+	}
+	for _, call := range connCalls {
 		if f := calleeFunc(call.Common()); f != nil {
 			switch f.Name() {
 			case "NoReconnect":
@@ -316,6 +326,7 @@ func ruleStop(c *Ctx) {
 			}
 			return nil
 		}
+		sp.InlineHelpers = true
 		tr := runTrace(p, stop, sp)
 		bad := ""
 		full := 0
@@ -485,16 +496,22 @@ func ruleStop(c *Ctx) {
 	if fn := p.Fn("(*server.Service).startMQClient"); fn != nil {
 		c.inst(1)
 		setCH := p.Method("mq.Client.SetClosedHandler")
-		ok := false
+		ok, direct := false, false
 		for _, call := range callsIn(fn) {
 			if _, is := isCallTo(call, setCH); is {
-				if mc, isMC := stripConv(callArgs(call.Common())[1]).(*ssa.MakeClosure); isMC && strings.Contains(mc.Fn.Name(), "handleClosedMQ") {
-					ok = true
+				if mc, isMC := stripConv(callArgs(call.Common())[1]).(*ssa.MakeClosure); isMC {
+					if strings.Contains(mc.Fn.Name(), "handleClosedMQ") {
+						ok = true
+					}
+					// the Stop method itself as handler
+					if bm := boundMethod(mc.Fn.(*ssa.Function)); bm != nil && bm.Name() == "Stop" {
+						ok, direct = true, true
+					}
 				}
 			}
 		}
 		h := p.Fn("(*server.Service).handleClosedMQ")
-		ok2 := false
+		ok2 := direct
 		if h != nil {
 			for _, call := range callsIn(h) {
 				if f := calleeFunc(call.Common()); f != nil && f.Name() == "Stop" {
@@ -579,6 +596,7 @@ func ruleDispose(c *Ctx) {
 			}
 			return nil
 		}
+		sp.InlineHelpers = true
 		tr := runTrace(p, fn, sp)
 		bad := ""
 		for _, path := range tr.Paths {
